@@ -41,15 +41,16 @@ checks["C11"] = (MC,
 checks["C12"] = (MC,
     "metamorphic check executed in the SSA executor: for gap positions of seed programs (all gaps of hand-written "
     "statement-form seeds incl. multi-line raw string literals, sampled gaps of the repository's test programs) the layout is replaced from menus of "
-    "blanks/tabs/comments/blank lines/CRLF/final-newline variants; acceptance and emitted bytes must equal those of the "
-    "original layout for both targets",
+    "blanks/tabs/comments (also block comments with a line break)/blank lines/CRLF/final-newline variants; acceptance and emitted bytes must equal those of the "
+    "original layout for both targets; a second harness inserts 1..2 symbolic bytes over {blank, tab} at every gap of the "
+    "hand-written seeds (the lexer runs on the symbolic bytes); rejected programs are seeds too (acceptance must not change)",
     "trusted: host-side token splitter that defines token-preserving re-layouts; differences are re-confirmed on the "
     "native build; outside: layouts not in the menus, windows wider than 2 (quick) / 3 (thorough) gaps",
     "SSA execution of lexer+parser+both back-ends on re-laid-out sources (explicit nondeterministic layout choice), byte equality of outputs")
 checks["C13"] = (MC,
     "bounded symbolic execution of Transpile for both targets: main file of n fully symbolic bytes (n<=2 quick, n<=3 "
     "thorough), token positions of the repository's test programs replaced by a symbolic byte or a menu lexeme, all import "
-    "graphs over three files incl. cycles, 41 statement forms x 10 contexts (jumps, bare expressions, value-less calls as operands), "
+    "graphs over three files incl. cycles, 51 statement forms x 10 contexts (jumps, bare expressions, value-less calls as operands), "
     "call graphs with exponentially many call paths; assertion: no Go panic, instruction/depth budget not exceeded, result is "
     "(script,nil) or (\"\",non-empty error)",
     "trusted: intrinsic models, virtual file system; hang candidates and panics are reproduced on the native build under a "
@@ -57,9 +58,10 @@ checks["C13"] = (MC,
     "SSA symbolic execution with panic capture and budgets; z3 / byte-domain decision for branch feasibility")
 checks["C14"] = (MC,
     "bounded exploration in the SSA executor of call histories (1..2 quick, 1..3 thorough) on one transpiler object over 6 "
-    "programs (one uses every statement form of the language) x 2 targets, 3 directory spellings and every permutation of every map range; each call's text must equal, "
+    "programs (one uses every statement form of the language, one is another program's tree after an edit in place) x 2 targets, "
+    "3 directory spellings paired with 3 ways the process was started (argv[0], working directory) and every permutation of every map range; each call's text must equal, "
     "for all values of the symbolic integer literals, the text of the same call alone at the canonical location; plus "
-    "native repetition/relocation/fresh-process runs",
+    "native repetition/relocation/fresh-process runs under three environments (PATH, HOME, locale, time zone)",
     "trusted: map iteration order is the only process-level nondeterminism reachable (any other nondeterministic stdlib "
     "call ends the path as unsupported); outside: longer histories, other programs",
     "SSA execution with nondeterministic map order and history choice; rope equality decided syntactically or by z3")
@@ -76,17 +78,19 @@ EXTRA_CHECKS["C08"] = (TV,
     "those classes; anything else is reported", tech_sh + " with per-character-class enumeration of counterexamples")
 EXTRA_CHECKS["C17"] = (TV,
     "as C08 for histories of write/append/read/exists over two paths (top level and in a function, plus a path with a "
-    "blank): the resulting virtual file system and the printed reads are compared with a line-store model for all "
+    "blank; fixed shapes for empty content, empty and glob-like paths of exists(), several exists() in one expression, "
+    "content and path computed by calls): the resulting virtual file system and the printed reads are compared with a line-store model for all "
     "contents; violations enumerated per character class and confirmed on the real bash (file system included)",
     trust_sh, tech_sh)
 EXTRA_CHECKS["C18"] = (TV,
     "as C08 for program calls: probe programs print their argument vector and standard input; the value under test sits "
     "at a symbolic argument position, literal or via a variable, in call statements, captures and 2..3-stage pipelines "
-    "with exit statuses 0/3/200; expected argv/pipe/capture behaviour from the reference model; Bash only",
+    "with exit statuses 0/3/200, stage arguments computed by order-dependent calls, nested program calls as arguments; "
+    "expected argv/pipe/capture/order behaviour from the reference model; Bash only",
     trust_sh + "; the Batch counterpart (_ach through cmd /V:ON) is not claimed (no cmd.exe)", tech_sh)
 EXTRA_CHECKS["C15"] = (TV,
     "the real pipeline compiles `import \"strings\"; print(strings.F(args))` for each of the 19 library functions; the "
-    "emitted script runs under ShSem with every string argument as symbolic bytes over {a,b,' '} (lengths 0..maxLen by "
+    "emitted script runs under ShSem with every string argument as symbolic bytes over {a,b,' '} (TrimSpace: escape letters, tab, blank; lengths 0..maxLen by "
     "case split, counts -2..4); z3 decides per path that for every argument tuple the output equals what Go's strings "
     "package returns (reference table computed natively)",
     "trusted: ShSem (calibrated against /bin/bash), Go's strings package as reference; arguments travel through files so "
@@ -152,7 +156,8 @@ EXTRA_CHECKS["C07"] = (MC,
 EXTRA_CHECKS["C19"] = (MC,
     "symbolic execution of main.main/parseOptions over os.Args built from option/value menus in both orders with short "
     "or long flags, one flag spelled by two symbolic bytes, noise options and trailing singletons, on a virtual file "
-    "system with accepted/rejected/invalid inputs (one imports a file with top-level state) and long stale outputs; assertions: on normal return exactly D/<stem>.<ext> "
+    "system with accepted/rejected/invalid inputs (one imports a file with top-level state, one the standard library), values "
+    "with a blank at an edge, and long stale outputs; assertions: a run with valid options whose input the library accepts succeeds; on normal return exactly D/<stem>.<ext> "
     "per target equals (for all values of the program's symbolic literal) the library result for a fresh converter; on "
     "panic or os.Exit(n>0) no new/changed file for the failing target; exit status 0 only with complete, valid options; input never modified",
     "trusted: virtual file system and os/filepath models; candidates are re-run with the natively built tsh binary; "
